@@ -14,7 +14,7 @@ func vpDB() database.Database {
 
 //vp:property C14
 //vp:set k 3 4
-//vp:bounds K requests (quick 3, thorough 4) over three session identifiers (two of them differing by a trailing blank only); each request is one of {negotiate, authenticate for a 2-character user name with symbolic characters, undecodable base64, a non-NTLM byte string, empty message}; user database {"ab","ef": non-empty passwords, "cd": empty password}; the client's proof was computed from an arbitrary password of {ab's, ef's, another} under the name it sends or under ab's/ef's name, against the challenge of an arbitrary server session created so far or against the empty challenge; the library may panic while deriving session keys after it verified a proof; cached contexts may or may not expire between requests
+//vp:bounds K requests (quick 3, thorough 4) over three session identifiers (two of them differing by a trailing blank only); each request is one of {negotiate, authenticate for a 2-character user name with symbolic characters, undecodable base64, a non-NTLM byte string, empty message}; user database {"ab","ef": non-empty passwords, "cd": empty password}; the client's proof was computed from an arbitrary password of {empty, ab's, ef's, another} under the name it sends or under ab's/ef's name, against the challenge of an arbitrary server session created so far or against the empty challenge; the library may panic inside ProcessAuthenticateMessage, before or after it verified the proof; cached contexts may or may not expire between requests
 //vp:assume go-ntlm's ProcessAuthenticateMessage compares against the response key it derived at the session's FIRST authenticate message (fetchResponseKeys caches it) and this session's challenge; go-cache contract
 //vp:reach authenticated challenged refused
 func VP_C14_history() {
@@ -45,10 +45,10 @@ func VP_C14_history() {
 			// what the client computed its proof from: any of the passwords around, under the name it
 			// sends or under another account's name (an attacker need not be consistent)
 			vpMsgUser = user
-			vpProofPwId = vpInt("proof-pw-" + is) // 1: ab's password, 2: ef's password, 3: some other password
+			vpProofPwId = vpInt("proof-pw-" + is) // 0: the empty password, 1: ab's password, 2: ef's password, 3: some other password
 			vpProofUserSel = vpInt("proof-user-" + is)
 			vpClientSess = vpInt("client-session-" + is)
-			vpAssume(vpAnd(vpAnd(vpProofPwId >= 1, vpProofPwId <= 3), vpAnd(vpAnd(vpProofUserSel >= 0, vpProofUserSel <= 2), vpAnd(vpClientSess >= -1, vpClientSess <= 3))))
+			vpAssume(vpAnd(vpAnd(vpProofPwId >= 0, vpProofPwId <= 3), vpAnd(vpAnd(vpProofUserSel >= 0, vpProofUserSel <= 2), vpAnd(vpClientSess >= -1, vpClientSess <= 3))))
 		case 2:
 			vpWireBad[text] = true
 		case 3:
@@ -112,12 +112,12 @@ func VP_C14_history() {
 // vpSlowDB: the user database is I/O — while one request waits for its answer the service handles
 // other requests (gRPC serves every call on its own goroutine).
 type vpSlowDB struct {
-	inner database.Database
-	slow  map[string]bool
+	database.Database // whatever else the interface offers is passed through
+	slow              map[string]bool
 }
 
 func (d *vpSlowDB) GetPassword(u string) string {
-	p := d.inner.GetPassword(u)
+	p := d.Database.GetPassword(u)
 	if d.slow[u] {
 		vpRunTasks()
 	}
@@ -136,7 +136,7 @@ func VP_C14_concurrent() {
 	vpMayExpire = false
 	vpReqNo = 0
 	names := [2]string{}
-	db := &vpSlowDB{inner: vpDB(), slow: map[string]bool{}}
+	db := &vpSlowDB{Database: vpDB(), slow: map[string]bool{}}
 	h := NewNTLMAuth(db)
 	vpWire["neg"] = vpNegotiateMsg()
 	r0, err0 := h.Authenticate(&auth.NtlmRequest{Session: "s1", NtlmMessage: "neg"})
@@ -150,7 +150,7 @@ func VP_C14_concurrent() {
 		names[i] = string([]byte{c0, c1})
 		vpWire["auth"+is] = vpAuthenticateMsgTagged([]byte{c0, 0, c1, 0}, byte(i))
 		d := vpProof{msgUser: names[i], userSel: vpInt("proof-user-" + is), pwId: vpInt("proof-pw-" + is), clientSess: sess.id}
-		vpAssume(vpAnd(vpAnd(d.pwId >= 1, d.pwId <= 3), vpAnd(d.userSel >= 0, d.userSel <= 2)))
+		vpAssume(vpAnd(vpAnd(d.pwId >= 0, d.pwId <= 3), vpAnd(d.userSel >= 0, d.userSel <= 2)))
 		vpProofTab[byte(i)] = d
 		if vpBool("database-slow-for-request-" + is) {
 			db.slow[names[i]] = true
